@@ -8,6 +8,7 @@ makes appear and disappear.  Line format (PROTOCOL.md, section "pty port"):
       o  the device path is present from now on; a pending wait elapses (-> successful open)
       x  the device disappears: path removed, an open port fails (-> Wait(min))
       E / D / S   enable / disable / shutdown through the channel handle
+      X           every handle is dropped (-> Shutdown; later commands do nothing)
       ~<ms>       pause
 
 The task starts disabled and the path absent.  Every case costs real time: the delays announced
@@ -23,6 +24,10 @@ import itertools
 # letters of the exhaustive part: fail, open, lose the port, disable+enable with the path as it
 # is, disable / path vanishes / enable (the sequence of the C14-m6 mutation after an `o`)
 LETTERS = ["f", "o", "x", "D,E", "D,f,E"]
+# all handles dropped in every phase (disabled, waiting, open; before / after a disable), followed
+# by events that must not announce anything any more
+DROP_PREFIXES = ["-", "E", "E,f", "E,f,f", "o,E", "o,E,x", "E,f,o", "o,E,D", "E,f,D", "o,E,D,E", "E,S", "o"]
+DROP_SUFFIXES = ["", "E", "o,E,f", "x,f", "D,E", "S", "X,E"]
 # cap reached at once and not a power-of-two multiple of min; cap never reached
 PAIRS = [(20, 50), (15, 1000)]
 
@@ -60,9 +65,17 @@ def budget(mn, mx, steps, limit_ms=1200):
         elif s == "D":
             if phase in ("wait", "open"):
                 phase = "idle"
-        elif s == "S":
+        elif s in ("S", "X"):
             phase = "fin"
     return out
+
+
+def drop_cases():
+    for mn, mx in PAIRS:
+        for pre in DROP_PREFIXES:
+            for suf in DROP_SUFFIXES:
+                steps = ([] if pre == "-" else pre.split(",")) + ["X"] + (suf.split(",") if suf else [])
+                yield f"pty port r{mn}.{mx} {','.join(steps)}"
 
 
 def exhaustive(max_len):
@@ -95,7 +108,7 @@ def random_script(r):
         elif k < 97:
             steps.append(f"~{r.rng(3, 25)}")
         elif k < 98:
-            steps.append("S")
+            steps.append("X" if r.chance(1, 3) else "S")
         else:
             # the mutation's shape, anywhere
             steps += ["o", "D", "f", "E", "f"]
@@ -106,6 +119,8 @@ def gen_sport(r, n, tier):
     """serial client channel life cycle: announced PortState sequence for scripts of path / user /
     port events; exhaustive short scripts for two (min, max) pairs, then random longer ones"""
     for line in exhaustive(5 if tier == "thorough" else 4):
+        yield line
+    for line in drop_cases():
         yield line
     for _ in range(n):
         mn = r.pick([5, 10, 20, 30, 45, 60, r.rng(5, 60)])
